@@ -238,6 +238,7 @@ class NumArr:
     def __itruediv__(self, o): return self._inplace(o, lambda a, b: a / b)
     def __rtruediv__(self, o): return self._bin(o, lambda a, b: b / a)
     def __pow__(self, o): return self._bin(o, lambda a, b: a ** b)
+    def __rpow__(self, o): return self._bin(o, lambda a, b: b ** a)
     def __abs__(self): return NumArr([abs(a) for a in self.data])
 
     def __add__(self, o): return self._bin(o, lambda a, b: a + b)
